@@ -3,6 +3,7 @@ import Tmv.Sha256
 import Tmv.Model.PubSub
 import Tmv.Model.Index
 import Tmv.Model.BlockIndex
+import Tmv.Model.IndexerService
 namespace Tmv.Drv.C19
 open Tmv Tmv.Query Tmv.PubSub
 
@@ -201,14 +202,14 @@ def step (s : St) (toks : List String) : St × String :=
         | _ => none
       match items with
       | some items =>
-        let rs : List Index.TxResult := (items.zipIdx).map fun (p, i) =>
-          { height := h, index := i, tx := p.1, events := p.2 }
-        let db := Index.addBatch Hs s.db rs
         -- `wait=0`: the block is only queued (answer `queued`); its effect is the same
         let queued := kv r "wait" == some "0"
-        match BlockIndex.index s.bdb h b e with
-        | some bdb => ({ s with db := db, bdb := bdb }, if queued then "queued" else "ok")
-        | none => ({ s with db := db }, if queued then "queued" else "ok block-rejected")
+        let blk : IndexerService.Block := { height := h, beginEvents := b, endEvents := e, txs := items }
+        let st : IndexerService.State := { db := s.db, bdb := s.bdb }
+        let ok := IndexerService.accepted st blk
+        let st' := IndexerService.step Hs st blk
+        ({ s with db := st'.db, bdb := st'.bdb },
+          if queued then "queued" else if ok then "ok" else "ok block-rejected")
       | none => (s, "bad-op")
     | _, _, _, _ => (s, "bad-op")
   | "bindex" :: r =>
